@@ -100,9 +100,102 @@ def run_strings(ctx, only=None):
     return div_iip, div_norm
 
 
+_MON = {"on": False, "events": []}
+_HOOKED = [False]
+
+
+def _install_monitor():
+    import os
+    import sys
+    if _HOOKED[0]:
+        return
+    _HOOKED[0] = True
+    names = {"os.remove": 0, "os.rmdir": 0, "os.mkdir": 0, "os.utime": 0, "os.truncate": 0, "os.chmod": 0}
+
+    def hook(event, args):
+        if not _MON["on"]:
+            return
+        import dharness
+        if not dharness.DAEMON_ACTIVE[0]:
+            return                  # the harness's own set-up / operator / fault actions
+        try:
+            if event in names:
+                p = os.fspath(args[0])
+                _MON["events"].append((event, os.path.realpath(os.path.dirname(p)) + "/" + os.path.basename(p)))
+            elif event in ("os.rename", "os.link", "os.symlink"):
+                p = os.fspath(args[1])
+                _MON["events"].append((event, os.path.realpath(os.path.dirname(p)) + "/" + os.path.basename(p)))
+                if event == "os.rename":
+                    p0 = os.fspath(args[0])
+                    _MON["events"].append(("os.rename-from", os.path.realpath(os.path.dirname(p0)) + "/" + os.path.basename(p0)))
+            elif event == "open" and isinstance(args[1], str) and any(ch in args[1] for ch in "wax+"):
+                p = os.fspath(args[0]) if not isinstance(args[0], int) else None
+                if p:
+                    _MON["events"].append(("open-write", os.path.realpath(os.path.dirname(p)) + "/" + os.path.basename(p)))
+        except Exception:
+            pass
+    sys.addaudithook(hook)
+
+
+def stage_effects(ctx):
+    """every mutating file-system call the daemons make during real multi-host histories (audit hook; realpath of the
+    containing directory taken at the instant of the call) stays strictly inside a managed node root and never removes a
+    root or a marker; a sentinel directory outside all roots stays untouched (covers tool sub-processes)"""
+    import os
+    import env as envmod
+    from props import c07
+    import dharness
+    _install_monitor()
+    rng = ctx.rng
+    nh = 30 if ctx.quick() else 1000
+    with envmod.Env() as e:
+        outside = os.path.join(e.tmp, "outside")
+        os.makedirs(outside, exist_ok=True)
+        with open(os.path.join(outside, "sentinel.dat"), "wb") as f:
+            f.write(b"do not touch")
+        for i in range(nh):
+            def on_step(case, desc):
+                pass
+            _MON["events"].clear()
+            # the monitor is on for the whole history; operator/fault steps of the harness itself write through world.put_bytes
+            # (suffix .verifnew / direct marker writes) and are filtered out below
+            _MON["on"] = True
+            try:
+                case, p7, p8, log = c07.run_history(ctx, e, rng, rng.randint(8, 28))
+                case.set_tools("rsync-only", "ok")
+                dharness.round_all(case)
+            finally:
+                _MON["on"] = False
+                os.environ["PATH"] = "/usr/local/bin:/usr/bin:/bin"
+            roots = [os.path.realpath(n.root) for n in case.w.db.StorageNode.select()]
+            nev = 0
+            for ev, p in _MON["events"]:
+                if p.endswith(".verifnew") or ev == "os.rename-from" and p.endswith(".verifnew"):
+                    continue
+                if "/roots/" not in p and e.tmp not in p:
+                    continue                 # interpreter / harness files elsewhere (database, tool control file)
+                if p.startswith(os.path.join(e.tmp, "index.db")) or p.endswith("toolctl.json"):
+                    continue
+                nev += 1
+                inside = [r for r in roots if p.startswith(r + "/")]
+                if not inside:
+                    ctx.violation("effect-outside:" + ev, f"daemon file-system call {ev} on {p}, which is not strictly inside any node root",
+                                  {"kind": "effects", "event": ev, "path": p, "history": log})
+                elif ev in ("os.remove", "os.rmdir", "os.rename-from") and any(p == r + "/ALPENHORN_NODE" for r in roots):
+                    ctx.violation("marker-removed", f"{ev} removed a node marker: {p}", {"kind": "effects", "event": ev, "path": p, "history": log})
+            for r in roots:
+                if not os.path.isdir(r):
+                    ctx.violation("root-removed", f"node root {r} was removed", {"kind": "effects", "history": log})
+            if open(os.path.join(outside, "sentinel.dat"), "rb").read() != b"do not touch" or sorted(os.listdir(outside)) != ["sentinel.dat"]:
+                ctx.violation("outside-touched", "a file outside all node roots was created or modified", {"kind": "effects", "history": log})
+            ctx.count("effects:fs-calls", nev)
+            ctx.case(("effects", tuple(log)), nontrivial=nev > 0, sample={"fs_calls": [x for x in _MON["events"] if "/roots/" in x[1]][:12]} if i == 0 else None)
+
+
 def run(ctx):
     ok = common.proof_stage(ctx, MODULE)
     div_iip, div_norm = run_strings(ctx)
+    stage_effects(ctx)
     ctx.coverage["exhaustive"] = True
     ctx.coverage["rule"] = ("all strings over {/,.,a} to length %d and over {/,.,a,space,\\n} to length %d, plus random "
                             "component-joined strings; non-trivial = contains '/' or '.'; every string goes through the real "
